@@ -10,6 +10,7 @@ import (
 	"regexp"
 	"strconv"
 	"strings"
+	"syscall"
 	"time"
 
 	"verif/internal/term"
@@ -80,6 +81,7 @@ func (s *Solver) start() error {
 		return err
 	}
 	cmd.Stderr = cmd.Stdout
+	cmd.SysProcAttr = &syscall.SysProcAttr{Pdeathsig: syscall.SIGKILL} // solvers die with their worker
 	if err := cmd.Start(); err != nil {
 		return err
 	}
